@@ -212,6 +212,16 @@ def _run(a, mod, prop, tier, seed, known, workdir, t0) -> int:
         r["origin"] = j
     m = merge(results)
 
+    if hasattr(mod, "extra_campaign"):
+        extra_fail, extra_stats = mod.extra_campaign(tier, seed, workdir, a.jobs)
+        m["extra_stats"] = extra_stats
+        for sig, e in extra_fail.items():
+            if e.get("harness"):
+                m["harness_errors"].append(f"{sig}: {e['message']}")
+            else:
+                m["failures"][sig] = e
+                m["evaluations"] += 1
+
     if m["harness_errors"]:
         for h in m["harness_errors"][:3]:
             print("HARNESS ERROR:\n" + h)
@@ -285,6 +295,9 @@ def write_evidence(mod, prop, tier, seed, m, t0, violations, known_hits, note=No
         "wall_s": round(time.time() - t0, 2),
         "violations": violations,
     }
+    if m.get("extra_stats"):
+        ev["coverage"].update(m["extra_stats"])
+        ev["coverage"]["evaluations"] += int(m["extra_stats"].get("fuzz_executions", 0))
     if hasattr(mod, "EXHAUSTIVE_NOTE"):
         ev["coverage"]["exhaustive_subdomains"] = mod.EXHAUSTIVE_NOTE
     if note:
